@@ -395,6 +395,7 @@ def c20(A, ctx, tier):
     extents.r_slice(A, ctx, dict(floor=12))
     extents.r_bounds(A, ctx, dict(floor=30))
     extents.r_argkind(A, ctx, dict(floor=60))
+    matrix.r_csc(A, ctx, dict(floor=40), rule="R-CSC-ORDER")
     kernels.r_fixpoint(A, ctx, dict(floor=4), rule="R-FIXPOINT-BOUNDS")
     kernels.r_kernel_eq(A, ctx, dict(floor=40), rule="R-KERNEL-BOUNDS")
     kernels.r_csc_helpers(A, ctx, dict(floor=16), rule="R-CSC-BOUNDS")
